@@ -11,6 +11,7 @@
 import Saltpack.Proofs.RoundTripSig
 import Saltpack.Proofs.MsgpackRT
 import Saltpack.Proofs.WireRT
+import Saltpack.Proofs.ArmoredRT
 import Saltpack.Toy
 
 namespace Saltpack.Props.C05
@@ -81,6 +82,40 @@ theorem C05_roundtrip_bytes (P : Prims) (hP : P.Lawful) (bs : Nat) (hbs : 0 < bs
     ∃ hr ps, Wire.splitSig out = .ok (hr, ps) ∧
       Sign.verifyAll P knownMajor kr hr ps = .ok (P.sigPub signer, msg) :=
   Proofs.sign_roundtrip_bytes P hP bs hbs hbs32 v hv signer nonce msg hn kr hk out hout
+
+/-- **Armored round trip** (`SignArmor62` ∘ `Dearmor62Verify`, model level): the
+    armored text dearmors, with validated `BEGIN/END [brand] SALTPACK SIGNED
+    MESSAGE` frames (`C11_roundtrip`), to exactly the binary message and the
+    brand, and that payload verifies to the message and the signer's key. -/
+theorem C05_roundtrip_armored (P : Prims) (hP : P.Lawful) (bs : Nat) (hbs : 0 < bs) (hbs32 : bs < 2 ^ 32)
+    (v : Version) (hv : v = v1 ∨ v = v2) (signer nonce msg : Bytes) (hn : nonce.length + 92 < 2 ^ 32)
+    (kr : Keyring) (hk : kr.lookupSigningPublicKey (P.sigPub signer) = some (P.sigPub signer))
+    (brand : Bytes) (hbr : Proofs.BrandOK brand)
+    (out : Bytes) (hout : Sign.attachedWith P bs v signer nonce msg = .ok out) :
+    ∃ r hr ps, Armor.open62 (some mtAttached) (Armor.seal62 mtAttached brand out) = .ok r ∧
+      r.payload = out ∧ r.brand = brand ∧
+      Wire.splitSig r.payload = .ok (hr, ps) ∧
+      Sign.verifyAll P knownMajor kr hr ps = .ok (P.sigPub signer, msg) :=
+  Proofs.sign_armored_roundtrip P hP bs hbs hbs32 v hv signer nonce msg hn kr hk brand hbr out hout
+
+/-- **Attached signatures under any minor version and any header bytes**
+    (forward compatibility of the verifier; the general form behind
+    `C05_roundtrip`, cf. `C09_accepts_attached`): a header `[v.major, minor]` for
+    an arbitrary `minor`, carried by arbitrary bytes `hb` (hashed as sent), with
+    packets signed over `hash hb`, verifies to the message of the Go sender's
+    chunk plan. -/
+theorem C05_roundtrip_any_minor (P : Prims) (hP : P.Lawful) (bs : Nat) (hbs : 0 < bs)
+    (v : Version) (hv : v = v1 ∨ v = v2) (minor : Int) (signer nonce msg : Bytes)
+    (kr : Keyring) (hk : kr.lookupSigningPublicKey (P.sigPub signer) = some (P.sigPub signer))
+    (hb : Bytes) (blks : List SigBlock)
+    (hblk : Sign.blockStructs P v signer (P.hash hb) (chunkPlan v bs msg) 0 = .ok blks) :
+    Sign.verifyAll P knownMajor kr
+        (.ok hb (Sign.header ⟨v.major, minor⟩ (P.sigPub signer) mtAttached nonce)) ⟨blks.map some, .eof⟩ =
+      .ok (P.sigPub signer, msg) := by
+  have hplan := Proofs.chunkPlan_valid v hv bs hbs msg
+  have := Proofs.sign_roundtrip_gen P hP v hv minor signer nonce (chunkPlan v bs msg) hplan.final hplan.empty_v1
+    hplan.empty_v2 kr hk _ hb blks ⟨rfl, hblk⟩
+  rwa [Proofs.chunkPlan_flatten] at this
 
 /-! ## non-vacuity: the hypotheses are met by the toy primitives -/
 example : Toy.prims.Lawful := Toy.lawful
